@@ -238,6 +238,18 @@ void val_create_one(Run& r, std::index_sequence<I...>)
         if (sc != 0 || ag.a != 0 || ag.b != 0 || ag.c[0] != 0 || ag.c[2] != 0 || ag.d != 0.0 || pv != nullptr) r.fail(Run::where("create<T> did not return T{} for a scalar / pointer / plain aggregate T", K, 0, 0, Cat));
     }
     if (!others_untouched(args, r.ids, size_t(-1))) r.fail(Run::where("create touched an argument", K, 0, 0, Cat));
+    {   // val(v) holds the VALUE it was given (its type decayed), not a view of the caller's object
+        std::string src = "a default name that is long enough for the heap " + std::to_string(v);
+        const std::string want = src;
+        auto fs = ctpg::ftors::val(src);
+        auto fm = ctpg::ftors::val(std::string(src));
+        src.assign(src.size(), '#');
+        auto rs = fs(pass<Cat, false>(args[I])...); auto rm = fm(pass<Cat, false>(args[I])...);
+        if constexpr (!std::is_same_v<decltype(rs), std::string> || !std::is_same_v<decltype(rm), std::string>) r.fail(Run::where("val(std::string) does not return a std::string", K, 0, 0, Cat));
+        else if (rs != want || rm != want) r.fail(Run::where("val(v) does not return the value it was given (it follows later changes of the caller's object)", K, 0, 0, Cat));
+        const char* lit = "lit"; auto fl = ctpg::ftors::val(lit);
+        if constexpr (!std::is_same_v<decltype(fl()), const char*>) r.fail(Run::where("val(const char*) does not return a const char*", K, 0, 0, Cat));
+    }
     // zero arguments are legal as well (empty rules)
     if constexpr (K == 1) { if (ctpg::ftors::val(int(v))() != v) r.fail("val(v)() != v"); if (ctpg::ftors::create<D>{}().x != 17) r.fail("create<T>() is not a default T"); }
 }
